@@ -1,4 +1,4 @@
-\* EXPECTED TO BE VIOLATED: strict precedence FAIL > ERROR > TIMEOUT (TIMEOUT reported although a path is stuck)
+\* MUTANT (code before a19e257: ShutdownError of the confirmation query escapes) - TLC MUST find a violation of OrderIndependence
 SPECIFICATION Spec
 CONSTANTS
   MinPaths = 1
@@ -7,7 +7,7 @@ CONSTANTS
   Replies = {"sat_valid", "unsat", "unknown", "garbage"}
   Replies2 = {"unsat"}
   StuckReplies = {"unsat", "unknown"}
-  EarlySet = {FALSE}
+  EarlySet = {TRUE, FALSE}
   CacheSet = {FALSE}
   RefinableSet = {FALSE}
   Threads = 4
@@ -16,4 +16,7 @@ CONSTANTS
   RecordHist = FALSE
   Canon = FALSE
   Coarse = FALSE
-INVARIANTS VerdictIsPrecedenceLenient
+  MutPrecedence = FALSE
+  MutNoCatch = TRUE
+  KilledMayRaise = FALSE
+INVARIANTS OrderIndependence
